@@ -213,6 +213,10 @@ def tlc_validate(module, cfg, trace_path, timeout=600, extra_files=None, dfs=Fal
         props = ["tlc2.tool.queue.IStateQueue=StateDeque"] if dfs else []
         t0 = time.time()
         rc, out = _java(args, d, timeout, heap="8g", props=props)
+        if '"TRACE-RESULT"' not in out and rc != 124:
+            # a JVM that dies under load (many validations in parallel) is not a verdict: once more, alone
+            time.sleep(2)
+            rc, out = _java(args, d, timeout, heap="8g", props=props)
         m = re.search(r'<<\s*"TRACE-RESULT",\s*(\d+),\s*(\d+),\s*(\[.*?\])\s*>>\s*\n', out, re.S)
         if not m:
             raise Inconclusive("trace validation gave no result (rc=%s):\n%s" % (rc, out[-4000:]))
